@@ -419,16 +419,74 @@ func checkLoaderShape(rep *core.Report, r4 *core.RuleRun) {
 		}
 	}
 	r4.Check(typeOK, name+":Type", vlit.Pos(), "Type = FieldTypes[p[1]]", "Type is not FieldTypes[item 1 of the entry]")
-	// guard: only len(p) > 1 (or >= 2)
+	// guard: the store executes only when len(p) >= 2, in whichever form the control flow says so: an enclosing
+	// `if len(p) > 1 {` (or its else branch with the opposite test) or an earlier `if len(p) < 2 { continue }`
 	guardOK := false
-	ast.Inspect(loader.Body, func(n ast.Node) bool {
-		ifs, ok := n.(*ast.IfStmt)
-		if !ok || !(ifs.Body.Pos() <= storeStmt.Pos() && storeStmt.End() <= ifs.Body.End()) {
+	atLeast2 := func(e ast.Expr, pol bool) bool {
+		be, ok := ast.Unparen(e).(*ast.BinaryExpr)
+		if !ok {
+			return false
+		}
+		isLenP := func(x ast.Expr) bool {
+			call, ok := ast.Unparen(x).(*ast.CallExpr)
+			if !ok || len(call.Args) != 1 || !is(call.Args[0], pObj) {
+				return false
+			}
+			id, ok := call.Fun.(*ast.Ident)
+			return ok && id.Name == "len"
+		}
+		op := be.Op
+		var c int64
+		var okc bool
+		switch {
+		case isLenP(be.X):
+			c, okc = constInt(info, be.Y)
+		case isLenP(be.Y):
+			c, okc = constInt(info, be.X)
+			op = map[token.Token]token.Token{token.LSS: token.GTR, token.GTR: token.LSS, token.LEQ: token.GEQ, token.GEQ: token.LEQ}[op]
+		default:
+			return false
+		}
+		if !okc {
+			return false
+		}
+		// now: len(p) op c
+		if pol {
+			return (op == token.GTR && c == 1) || (op == token.GEQ && c == 2)
+		}
+		return (op == token.LSS && c == 2) || (op == token.LEQ && c == 1)
+	}
+	terminates := func(b *ast.BlockStmt) bool {
+		if len(b.List) == 0 {
+			return false
+		}
+		switch x := b.List[len(b.List)-1].(type) {
+		case *ast.BranchStmt:
+			return x.Tok == token.CONTINUE || x.Tok == token.BREAK || x.Tok == token.GOTO
+		case *ast.ReturnStmt:
 			return true
 		}
-		if be, ok := ifs.Cond.(*ast.BinaryExpr); ok {
-			if call, ok := be.X.(*ast.CallExpr); ok && len(call.Args) == 1 && is(call.Args[0], pObj) {
-				if c, ok := constInt(info, be.Y); ok && ((be.Op == token.GTR && c == 1) || (be.Op == token.GEQ && c == 2)) {
+		return false
+	}
+	contains := func(n ast.Node) bool { return n != nil && n.Pos() <= storeStmt.Pos() && storeStmt.End() <= n.End() }
+	ast.Inspect(loader.Body, func(n ast.Node) bool {
+		switch x := n.(type) {
+		case *ast.IfStmt:
+			if contains(x.Body) && atLeast2(x.Cond, true) {
+				guardOK = true
+			}
+			if contains(x.Else) && atLeast2(x.Cond, false) {
+				guardOK = true
+			}
+		case *ast.BlockStmt:
+			if !contains(x) {
+				return true
+			}
+			for _, st := range x.List {
+				if contains(st) {
+					break
+				}
+				if ifs, ok := st.(*ast.IfStmt); ok && ifs.Else == nil && ifs.Init == nil && terminates(ifs.Body) && atLeast2(ifs.Cond, false) {
 					guardOK = true
 				}
 			}
